@@ -40,7 +40,7 @@ use datafusion_expr::{
     WindowFunctionDefinition,
     expr::WindowFunction,
     function::{AccumulatorArgs, StateFieldsArgs},
-    utils::format_state_name,
+    utils::{AggregateOrderSensitivity, format_state_name},
 };
 use datafusion_functions_aggregate_common::aggregate::count_distinct::PrimitiveDistinctCountGroupsAccumulator;
 use datafusion_functions_aggregate_common::aggregate::{
@@ -281,6 +281,12 @@ fn get_small_int_accumulator(data_type: &DataType) -> Result<Box<dyn Accumulator
 }
 
 impl AggregateUDFImpl for Count {
+    fn order_sensitivity(&self) -> AggregateOrderSensitivity {
+        // The result does not depend on the input order: never request the ORDER BY
+        // columns as extra arguments or a sort
+        AggregateOrderSensitivity::Insensitive
+    }
+
     fn name(&self) -> &str {
         "count"
     }
